@@ -691,10 +691,15 @@ int main(int argc, char** argv)
   // the sandbox under test is the first one created, or (SBX_LAST) the last
   RS sandbox;
   RS other1, other2;
-#ifdef SBX_LAST
+#if defined(SBX_ALONE)
+  // the sandbox under test is the only live sandbox of its type
+  sandbox.create_sandbox();
+#elif defined(SBX_LAST)
   other1.create_sandbox();
   other2.create_sandbox();
   sandbox.create_sandbox();
+  // ... and the oldest one is gone again before anything is computed (not in creation order)
+  other1.destroy_sandbox();
 #else
   sandbox.create_sandbox();
   other1.create_sandbox();
@@ -729,8 +734,12 @@ int main(int argc, char** argv)
   } else {
     return 2;
   }
+#if !defined(SBX_ALONE)
   other2.destroy_sandbox();
+#  if !defined(SBX_LAST)
   other1.destroy_sandbox();
+#  endif
+#endif
   sandbox.destroy_sandbox();
   out.close();
   return 0;
